@@ -134,6 +134,9 @@ type World struct {
 	Invariant func() string
 	// EveryStep hooks (cheap probes)
 	OnStep func()
+	// OnIdle is evaluated at every quiescent moment: no task runnable and no
+	// network action enabled (only the passage of time can change anything).
+	OnIdle func() string
 }
 
 func NewWorld(cfg Config) *World {
@@ -473,6 +476,15 @@ func (w *World) Run(done func() bool) End {
 		if len(opts) == 0 {
 			w.mu.Unlock()
 			return EndQuiescent
+		}
+		if len(opts) == 1 && opts[0].Class == 'A' && w.OnIdle != nil {
+			// true quiescence: every task is blocked, nothing is in flight
+			w.mu.Unlock()
+			if v := w.OnIdle(); v != "" {
+				w.Violation = v
+				return EndViolation
+			}
+			w.mu.Lock()
 		}
 		idx, param := 0, 0
 		if len(opts) > 1 || opts[0].NParam > 0 {
